@@ -30,6 +30,13 @@ POOLS = {
         "H": ({"H": 1}, 0), "#H": ({"H": 1}, 0), "CO": ({"C": 1, "O": 1}, 0), "#CO": ({"C": 1, "O": 1}, 0), "H2": ({"H": 2}, 0), "#H2": ({"H": 2}, 0),
         "#HCO": ({"H": 1, "C": 1, "O": 1}, 0), "HCO": ({"H": 1, "C": 1, "O": 1}, 0), "C": ({"C": 1}, 0), "O": ({"O": 1}, 0), "#O": ({"O": 1}, 0), "#OH": ({"O": 1, "H": 1}, 0),
     },
+    # formulas that mention an element symbol in several places (composition computed by hand)
+    "repeat": {
+        "H": ({"H": 1}, 0), "C": ({"C": 1}, 0), "O": ({"O": 1}, 0), "N": ({"N": 1}, 0), "H2": ({"H": 2}, 0), "OH": ({"O": 1, "H": 1}, 0),
+        "CH3": ({"C": 1, "H": 3}, 0), "CH3OH": ({"C": 1, "H": 4, "O": 1}, 0), "HCOOH": ({"H": 2, "C": 1, "O": 2}, 0), "H2CCO": ({"H": 2, "C": 2, "O": 1}, 0),
+        "NH2CHO": ({"N": 1, "H": 3, "C": 1, "O": 1}, 0), "CH3OH2+": ({"C": 1, "H": 5, "O": 1}, 1), "H+": ({"H": 1}, 1), "CO": ({"C": 1, "O": 1}, 0),
+        "NH2": ({"N": 1, "H": 2}, 0), "HCO": ({"H": 1, "C": 1, "O": 1}, 0), "CH3OCH3": ({"C": 2, "H": 6, "O": 1}, 0), "#CH3OH": ({"C": 1, "H": 4, "O": 1}, 0),
+    },
 }
 
 
@@ -75,5 +82,7 @@ def cases(thorough, seed):
             if i % 7 == 3:
                 r.append(["CR", "PHOTON", "CRPHOT"][i % 3])
             reactions.append(rx(r, list(p)))
-        out.append(Case(f"BAL-{pn}", {"reactions": reactions, "network": {}}, tags={"balanced"}))
+        c = Case(f"BAL-{pn}", {"reactions": reactions, "network": {}}, tags={"balanced"})
+        c.composition = {c.canon(n): v for n, v in POOLS[pn].items()}  # independent of naunet's name parser
+        out.append(c)
     return out
